@@ -270,7 +270,14 @@ def define(ctx, ns, modname, qualname, loop_specs=None, extra=None, label=None):
                         ns[nm] = LazyImport(ns, rel[0], rel[1], fallback=_package_function(ctx, ns, modname, rel[0], rel[1]))
                 continue
             if b[0] in ("function", "class"):
-                define(ctx, ns, modname, nm)
+                # loop contracts given by selector that match no loop of this function travel to the helper functions
+                # it calls: a loop moved into a helper by a refactoring keeps its invariant
+                passed = None
+                if loop_specs and b[0] == "function":
+                    resolved = frontend.resolve_loop_selectors(modname, qualname, loop_specs) or {}
+                    own = set(id(v) for v in resolved.values())
+                    passed = {k: v for k, v in loop_specs.items() if isinstance(k, str) and id(v) not in own} or None
+                define(ctx, ns, modname, nm, loop_specs=passed)
             elif b[0] == "other":
                 def _resolve(x, _seen=set()):
                     bx = module_level_binding(modname, x)
